@@ -58,6 +58,17 @@ func (c *AttrCache) ConfigureNegativeCaching(enable bool, ttl time.Duration) {
 	if ttl > 0 {
 		c.negativeTTL = ttl
 	}
+
+	// Negative entries must not outlive negative caching: without this Get keeps
+	// answering "does not exist" from entries stored before it was disabled.
+	if !enable {
+		for path, cached := range c.cache {
+			if cached.isNegative {
+				c.removeFromAccessLog(path)
+				delete(c.cache, path)
+			}
+		}
+	}
 }
 
 // Get retrieves cached attributes if they exist and are not expired.
@@ -255,6 +266,12 @@ func (c *AttrCache) PutNegative(path string) {
 
 	c.mu.Lock()
 	defer c.mu.Unlock()
+
+	// Re-check under the write lock: negative caching may have been disabled
+	// (and the negative entries purged) since the check above.
+	if !c.enableNegative {
+		return
+	}
 
 	// Check if entry already exists
 	existing, exists := c.cache[path]
